@@ -6,6 +6,7 @@
 package sim
 
 import (
+	"sync/atomic"
 	"bytes"
 	"crypto/sha256"
 	"encoding/hex"
@@ -577,9 +578,16 @@ func (s *Sim) candidates() []*entry {
 
 func isRemover(l string) bool { return strings.HasSuffix(l, "remover") }
 
+// Progress counts scheduler iterations of all simulations in this process. The
+// worker's stall watchdog (real time, outside the bubble) reads it: a goroutine
+// blocked on a real mutex that nobody will release keeps synctest.Wait from
+// returning, and the counter stops.
+var Progress atomic.Int64
+
 func (s *Sim) loop(drain bool) RunResult {
 	idle := 0
 	for {
+		Progress.Add(1)
 		synctest.Wait()
 		s.flushNotes()
 		if s.StepHook != nil {
